@@ -235,3 +235,22 @@ Definition base_dir_program : list dstmt := [DClimb true; DInstallUp].
 Definition dir_request : sys -> path -> sys := dir_request_gen dir_loop_program.
 (* several requests (Workflow: the base directories of patterns, the parents of static files) *)
 Definition dir_requests (s : sys) (ps : list path) : sys := fold_left dir_request ps s.
+
+(* change_loop calls Inotify.rm_watch for an entry recorded as installed although the kernel no longer holds a watch
+   with that label (it dropped it when the directory was removed): inotify_rm_watch fails with EINVAL, the OSError is
+   not caught, the change_loop task ends (finding C14-rmwatch).  `step` above models the call as a no-op on the kernel
+   side; this predicate says whether the head event makes the real code raise. *)
+Definition rm_on_dropped (s : sys) : bool :=
+  match s_queue s with
+  | [] => false
+  | ev :: _ =>
+      let p := ev_path ev in
+      let m := ev_mask ev in
+      negb (has_bit m M_IGNORED) && has_bit m M_ISDIR && is_deleted_mask m && installed (s_w s) p
+      && negb (existsb (fun e => str_eqb (snd e) p) (s_kw s))
+  end.
+Fixpoint dies_settling (fuel : nat) (s : sys) : bool :=
+  match fuel with
+  | O => false
+  | S f => match s_queue s with [] => false | _ => rm_on_dropped s || dies_settling f (step s) end
+  end.
